@@ -235,6 +235,7 @@ def stream_reparse(ctx, r):
             lines.append("parse 3 %s -" % tok(b2))
             lines.append("reparse 2 1 3")
         cases.append(Case(lines, "reparse"))
+    cases += opaque_space_cases(ctx, r, scale(ctx, 200, 3000), reparse=True)
     return cases
 
 def oracle_reparse(cmd, line):
@@ -268,7 +269,29 @@ def gen_setter_call(r, allow_protocol=True):
 START_URLS = ["http://h/p?z=1&y=2&x=3", "non-spec:/p?b=2&a=1#f", "http://h/?a=%41&b&&c=d&", "http://h/p?", "http://example.com/", "https://u:p@h:8443/a/b?q#f", "http://h", "ftp://h:21/", "ws://h:80/x?y", "file:///C:/a/b", "file://host/x",
               "file:///", "file://localhost/x", "non-spec://u:p@h:99/p?q#f", "non-spec://h", "non-spec:/p", "non-spec:///p", "non-spec://",
               "non-spec:/.//p", "non-spec:opaque  ", "mailto:a@b?s  #f", "javascript:alert(1)  ", "data:x  ?q", "blob:http://h/id", "a:b #c", "http://[::1]/", "http://1.2.3.4/",
-              "http://h/a/b/c/..", "https://h/?#", "non-spec:/..//p", "wss://h:443/"]
+              "http://h/a/b/c/..", "https://h/?#", "non-spec:/..//p", "wss://h:443/",
+              "data:space   ?query#frag", "a:   #f", "a:  ?q", "blob:https://example.org:8443/uuid", "ws://h/?a'z", "file:///a/../C|/x"]
+
+def opaque_space_cases(ctx, r, n, reparse=False):
+    """opaque paths that end in spaces (or are nothing but spaces): the spaces are stripped exactly when BOTH the query
+    and the fragment have become null, whichever goes last and by whatever means"""
+    cases = []
+    for rep in range(n):
+        st = r.choice(["data:space   ?query#frag", "a:b  ?q#f", "a:   #f", "a:  ?q", "data:  ?q#f", "non-spec:opaque \t ?q#f", "a: x ?q#f", "mailto:a@b  ?s#f", "a:?q#f", "a: #"])
+        lines = ["parse 0 %s -" % tok(st)]
+        if r.random() < 0.4: lines.append("sp 0")
+        for _ in range(r.randint(2, 6)):
+            k = r.random()
+            if k < 0.3: lines.append("set 0 hash %s" % tok(r.choice(["", "", "#", "x"])))
+            elif k < 0.6: lines.append("set 0 search %s" % tok(r.choice(["", "", "?", "y=1"])))
+            elif k < 0.7: lines.append("sp_clear 0")
+            elif k < 0.8: lines.append("sp_del 0 %s" % tok(r.choice(["q", "query", "s", "y"])))
+            elif k < 0.9: lines.append("set 0 pathname %s" % tok(r.choice(["x  ", "", " "])))
+            else: lines.append("set 0 href %s" % tok(r.choice(["a:c  ?q#f", "a:   #f"])))
+            if reparse: lines.append("reparse 1 0 -")
+        lines.append("get 0")
+        cases.append(Case(lines, "opaque-spaces"))
+    return cases
 
 def stream_setters(ctx, r):
     cases = []
@@ -276,8 +299,10 @@ def stream_setters(ctx, r):
         lines = ["parse 0 %s -" % tok(r.choice(START_URLS) if r.random() < 0.7 else gens.gen_url(r))]
         for _ in range(r.randint(1, scale(ctx, 12, 40))):
             w, v = gen_setter_call(r)
-            lines.append("set 0 %s %s" % (w, tok(v, r.choice(ENCS) if r.random() < 0.2 else "b", r.choice("svz"))))
+            lines.append("%s 0 %s %s" % ("set2" if r.random() < 0.25 else "set", w, tok(v, r.choice(ENCS) if r.random() < 0.2 else "b", r.choice("svz"))))
+            if r.random() < 0.02: lines.append("vecgrow 0 %d" % r.randint(0, 7))
         cases.append(Case(lines, "setters"))
+    cases += opaque_space_cases(ctx, r, scale(ctx, 300, 4000))
     return cases
 
 SP_NAMES = ["\x7f", "\x80", "\u07ff", "\u0800", "\u07ff\u0800", "a", "b", "a b", "", "=", "&", "+", "%", "%41", "\u00e9", "\u00e9\u00e9", "\uffff", "\ue000", "\U0001f4a9", "\U00010000", "aa", "a\x00", "x&y=z", "n"]
@@ -324,6 +349,7 @@ def stream_histories(ctx, r):
                 lines.append("sp_set 0 %s %s" % (tok(nm.replace("%41", "A").replace("%7e", "~")), tok(vl.replace("%41", "A").replace("%7e", "~"))))
         lines += ["sp_sort 0", "get 0", "get 1"]
         cases.append(Case(lines, "focused-history"))
+    cases += opaque_space_cases(ctx, r, scale(ctx, 200, 3000))
     # a COPY of the params object of a URL is a detached value: it outlives its source (which is destroyed, replaced
     # by construction, moved from or re-parsed), is edited afterwards, and the source (if alive) must not change
     for rep in range(scale(ctx, 300, 4000)):
@@ -354,7 +380,7 @@ def stream_histories(ctx, r):
                 else:
                     lines.append("parse %d %s %s" % (a, tok(r.choice(START_URLS) if r.random() < 0.6 else gens.gen_url(r)), bs))
             elif x < 0.36:
-                w, v = gen_setter_call(r); lines.append("set %d %s %s" % (a, w, tok(v)))
+                w, v = gen_setter_call(r); lines.append("%s %d %s %s" % ("set2" if r.random() < 0.2 else "set", a, w, tok(v)))
             elif x < 0.42: lines.append("clear %d" % a)
             elif x < 0.48: lines.append("copy %d %d" % (a, b))
             elif x < 0.52: lines.append("copyctor %d %d" % (a, b))
@@ -368,7 +394,8 @@ def stream_histories(ctx, r):
             elif x < 0.935: lines.append("sp_take %d %d" % (a, r.randint(0, 3)))
             elif x < 0.94: lines.append("swapf %d %d" % (a, b))
             elif x < 0.9475: lines.append("%s %d %d" % (r.choice(["move", "safe_assign", "swap", "copy"]), a, a))      # onto itself
-            elif x < 0.95: lines.append("parse_selfbase %d %s" % (a, tok(r.choice(["x", "../y", "?q", "#f", "", "//h2/p", "a/" * 60]), "b")))
+            elif x < 0.9525: lines.append("vecgrow %d %d" % (a, r.randint(0, 7)))
+            elif x < 0.955: lines.append("parse_selfbase %d %s" % (a, tok(r.choice(["x", "../y", "?q", "#f", "", "//h2/p", "a/" * 60]), "b")))
             elif x < 0.96: lines.append("sp_%s %d %d" % (r.choice(["assign", "safe_assign"]), a, r.randint(0, 3)))
             elif x < 0.98: lines.append("usp_new %d %s" % (r.randint(0, 3), tok(r.choice(["", "a=1&b=2", "?z=%F0%9F%92%A9&a=b"]))))
             else: lines.append("equals %d %d %s" % (a, b, r.choice("01")))
@@ -654,6 +681,11 @@ def stream_urlenc(ctx, r):
     # attached object, with and without a leading '?', and the UTF-8 length boundaries in every input width
     for rep in range(scale(ctx, 300, 5000)):
         lines.append("parse 0 %s -" % tok(r.choice(["http://h/p?x=1", "non-spec:/p", "http://h/?", "file:///x?a&b=%20x"])))
+        if r.random() < 0.3:
+            # the list a url gives away through std::move(url).search_params(), with and without an attached object
+            lines.append("parse 3 %s -" % tok("http://h/p?" + r.choice(["?b=2&a=1", "?", "??x", "?=x&?", "a=1&&b", "%3F=1", "+=%2B"])))
+            if r.random() < 0.4: lines.append("sp 3")
+            lines.append("sp_take 3 2"); lines.append("usp_selfparse 2 0 %s" % r.choice("nv"))
         lines.append("sp 0")
         for _ in range(r.randint(1, 5)):
             e = r.choice(["b", "h", "w"])
@@ -662,7 +694,22 @@ def stream_urlenc(ctx, r):
             if r.random() < 0.5:
                 lines.append(gen_sp_op(r, "sp", 0))
         lines.append("get 0")
-    return [Case(lines[i:i + 2000], "urlenc") for i in range(0, len(lines), 2000)]
+    return [Case(lines[i:i + 2000], "urlenc") for i in range(0, len(lines), 2000)] + selfparse_cases(ctx, r, scale(ctx, 60, 600))
+
+def selfparse_cases(ctx, r, n):
+    """parse() given a view of one of the object's OWN strings (long enough to live on the heap): the new list must
+    be built before the old one is released"""
+    cases = []
+    for rep in range(n):
+        inner = "&".join("%s=%s" % ("k%d" % i + "x" * r.choice([0, 20, 40]), "v%d" % i + "y" * r.choice([0, 20, 40])) for i in range(r.randint(1, 4)))
+        enc = inner.replace("=", "%3D").replace("&", "%26")
+        q = r.choice(["first" + "a" * 30 + "=" + enc + "&next=" + enc, enc + "=" + "b" * 40, "n=" + enc, "?" + enc + "=1&z=" + enc])
+        lines = ["usp_new 0 %s" % tok(q)]
+        for _ in range(r.randint(1, 3)):
+            lines.append("usp_selfparse 0 %d %s" % (r.randint(0, 2), r.choice("nv")))
+        lines.append("usp_sort 0")
+        cases.append(Case(lines, "selfparse"))
+    return cases
 
 def stream_usp(ctx, r):
     cases = []
@@ -677,6 +724,11 @@ def stream_usp(ctx, r):
             elif k < 0.815:
                 op = r.choice(["has", "get", "getall", "del", "remove", "set", "has2", "del2"])
                 lines.append("usp_selfname 0 %s %d %d%s" % (op, r.randint(0, 4), r.choice([0, 1, 1, 2, 3, 50]), (" " + tok(r.choice(["", "v", "1", "2"]), "b")) if op in ("set", "has2", "del2") else ""))
+            elif k < 0.82: lines.append("usp_selfparse 0 %d %s" % (r.randint(0, 3), r.choice("nv")))
+            elif k < 0.825:
+                lines.append("parse 3 %s -" % tok("http://h/p?" + r.choice(["?b=2&a=1", "?", "??x", "?=x&?", "a=1&b=2", "%3F=1", "x=a%3Db%26c"])))
+                if r.random() < 0.4: lines.append("sp 3")
+                lines.append("sp_take 3 0")
             elif k < 0.83: lines.append("usp_swap %d %d" % (r.choice([0, 1]), r.choice([0, 1, 2])))
             elif k < 0.85: lines.append("usp_%s %d %d" % (r.choice(["move", "movector"]), *r.sample([0, 1, 2], 2)))
             elif k < 0.9: lines.append("usp_snapshot 0 1")
@@ -684,6 +736,7 @@ def stream_usp(ctx, r):
             else: lines.append("usp_safe_assign 0 1")
         lines.append("usp_sort 0")
         cases.append(Case(lines, "usp"))
+    cases += selfparse_cases(ctx, r, scale(ctx, 60, 600))
     # probes with ill-formed UTF-8 given as char input (known finding F2 when they deviate)
     for bad in [[0xFF], [0x61, 0xC3], [0xE2, 0x82], [0xED, 0xA0, 0x80], [0xC0, 0xAF], [0x80]]:
         for op in ["append", "set", "has2", "del2"]:
@@ -987,6 +1040,30 @@ def sample_icu_laws2(ctx):
             bad.append(("idna_idem", repr(bytes(rres)), l))
     return len(ins), len(results), bad
 
+def stream_setapply(ctx, r):
+    """C13: every code point set is APPLIED in the right place - each ASCII code point (and a few others) in every
+    component of a URL of every scheme class, through the parser and the setters, and through percent_encode"""
+    lines = []
+    sets = ["fragment", "query", "special_query", "path", "raw_path", "posix_path", "userinfo", "component"]
+    for st in sets:
+        lines.append("pctenc %s %s" % (st, tok_units("b", list(range(0, 128)))))
+        lines.append("pctenc %s %s" % (st, tok_units("w", list(range(0, 256)) + [0x100, 0x131, 0xFF21, 0x10041])))
+    cps = list(range(0, 128)) + [0x80, 0xFF, 0x131, 0x2100, 0xFF03, 0xFF0F, 0xFF1A, 0xFF20, 0xFF3B, 0xFE55, 0x2047, 0x1F4A9]
+    shapes = ["http://h/%s", "ws://h/%s", "file:///%s", "a://h/%s", "a:/%s", "a:%s",
+              "http://h/?%s", "https://h/?x%sy", "ws://h/?%s", "wss://h/?%s", "ftp://h/?%s", "file:///?%s", "a://h/?%s", "a:?%s",
+              "http://h/#%s", "a:#%s", "http://%s@h/", "http://u:%s@h/", "a://%s@h/", "http://a%sb/", "ws://a%sb/", "file://a%sb/", "a://a%sb/"]
+    for c in cps:
+        ch = chr(c)
+        for sh in shapes:
+            lines.append("parse 0 %s -" % tok(sh % ch, "b" if c < 0x80 or r.random() < 0.5 else r.choice(["h", "w"])))
+    for c in cps:
+        ch = chr(c)
+        for st in ["http://u:p@h:1/p?q#f", "ws://h/p?q#f", "a://h/p?q#f", "a:p?q#f", "file:///p?q#f"]:
+            lines.append("parse 1 %s -" % tok(st))
+            for w in ["username", "password", "host", "pathname", "search", "hash"]:
+                lines.append("set 1 %s %s" % (w, tok("x" + ch + "y")))
+    return [Case(lines[i:i + 1000], "setapply") for i in range(0, len(lines), 1000)]
+
 def stream_fmt(ctx, r):
     """stream insertion (operator<<) of the views the getters return, with field width / adjustment / fill"""
     lines = []
@@ -995,6 +1072,8 @@ def stream_fmt(ctx, r):
         for w in [0, 1, 2, 6, 12, 40]:
             for al in "lr":
                 lines.append("fmt 0 %d %s" % (w, al))
+        # operations of an object onto itself, the container round trip and the noexcept operations: the same in every configuration
+        lines += ["sp 0", "swap 0 0", "move 0 0", "safe_assign 0 0", "copy 0 0", "vecgrow 0 3", "nxmove 0", "get 0"]
     return [Case(lines[i:i + 500], "fmt") for i in range(0, len(lines), 500)]
 
 def stream_alias(ctx, r):
@@ -1015,6 +1094,7 @@ def stream_alias(ctx, r):
 STREAMS = {
     "alias": (stream_alias, oracle_state),
     "fmt": (stream_fmt, oracle_state),
+    "setapply": (stream_setapply, oracle_state),
     "parse": (stream_parse, oracle_state),
     "parse_exhaustive": (stream_parse_exhaustive, oracle_state),
     "reparse": (stream_reparse, oracle_reparse),
